@@ -20,7 +20,7 @@ from typing import Any
 import reactivex.operators as ops
 
 from ..common import UnitResult, case_rng, chunks, show, strict
-from ..single import SUB_AT, cut_after_terminal, make_input, match_expected, run_single, show_timed
+from ..single import SUB_AT, cut_after_terminal, make_input, run_single, show_timed
 from ..vlab import Lab, gen_timeline, show_timeline
 from . import _c15_time as T
 
@@ -35,7 +35,7 @@ RULE = ("seeded random cases: operator (debounce, its alias throttle_with_timeou
 ASSUMPTIONS = ["TestScheduler / HistoricalScheduler are the clock (their ordering is checked independently by C28)",
                "probe sources and probe observers are harness code (conforming here)",
                "sample(period) is observed until a fixed virtual time after the last source notification, then unsubscribed"]
-CASES = {"quick": 4800, "thorough": 192000}
+CASES = {"quick": 19200, "thorough": 600000}
 OPS = ["debounce", "debounce", "throttle_with_timeout", "throttle_first", "throttle_first", "throttle_with_mapper",
        "throttle_with_mapper", "throttle_with_mapper", "sample_period", "sample_period", "sample_obs", "sample_obs"]
 OPSET = sorted(set(OPS))
